@@ -128,6 +128,70 @@ def checked(ctx, name, fn, *args):
     return r1
 
 
+def _leaves(x):
+    if isinstance(x, (list, tuple)):
+        for y in x:
+            yield from _leaves(y)
+    elif isinstance(x, dict):
+        for y in x.values():
+            yield from _leaves(y)
+    elif isinstance(x, np.ndarray) or hasattr(x, 'detach'):
+        yield x
+
+
+def _shares(a, b):
+    """do two results (arrays / tensors / nested lists of them) share memory?"""
+    for x in _leaves(a):
+        for y in _leaves(b):
+            if isinstance(x, np.ndarray) and isinstance(y, np.ndarray):
+                if x.size and y.size and np.shares_memory(x, y):
+                    return True
+            elif hasattr(x, 'detach') and hasattr(y, 'detach'):
+                if x.numel() and y.numel() and x.untyped_storage().data_ptr() == y.untyped_storage().data_ptr():
+                    return True
+    return False
+
+
+def _vandalise(x):
+    for y in _leaves(x):
+        try:
+            if isinstance(y, np.ndarray):
+                if y.flags.writeable:
+                    y[...] = 77
+            else:
+                with __import__('torch').no_grad():
+                    y.fill_(77)
+        except Exception:
+            pass
+
+
+def reuse_check(ctx, name, f, A, B, describe=None):
+    """input class "buffer reuse across calls": `r1 = f(*A)`, copy it, `r2 = f(*B)` with a DIFFERENT input of the same size (so that a
+    size-keyed cache / workspace would be shared); then r1 must be unchanged bit for bit and must not share memory with r2; then r1 is
+    overwritten in place and `f(*B)`, `f(*A)` are called again: both must still give their first answers.  Deterministic, quick tier."""
+    key = name.split('[')[0] + ':result-overwritten-by-next-call'
+    hist = dict(op=name, history=[f'f(A)', f'f(B)'], A=[_desc(x) for x in A], B=[_desc(x) for x in B]) if describe is None else dict(op=name, history=['f(A)', 'f(B)'], **describe)
+    try:
+        # every call gets fresh copies of its arguments: a result that is a view of its own input (reshape / transpose of a 1x1 operator) is a
+        # different matter (aliasing class); here only a LATER call may not change an EARLIER result
+        A0, B0 = A, B
+        r1 = f(*_snap(A0)); c1 = _snap(r1)
+        r2 = f(*_snap(B0)); c2 = _snap(r2)
+        if not _same(r1, c1):
+            ctx.fail(key, f'{name}: the result of the first call was changed by a second call with a different input of the same size', hist); return False
+        if r1 is r2 or _shares(r1, r2):
+            ctx.fail(key, f'{name}: the results of two calls with different inputs of the same size share memory', hist); return False
+        _vandalise(r1)
+        r3 = f(*_snap(B0)); r4 = f(*_snap(A0))
+        if not _same(r3, c2) or not _same(r4, c1):
+            ctx.fail(key, f'{name}: after the first result was overwritten in place by the caller, {"f(B)" if not _same(r3, c2) else "f(A)"} no longer returns its first answer '
+                     '(a cached / reused buffer is handed out)', dict(hist, history=['f(A)', 'f(B)', 'overwrite result of f(A) in place', 'f(B)', 'f(A)'])); return False
+    except Exception as e:
+        ctx.fail(name.split('[')[0] + ':reuse-check-raises', f'{name}: {type(e).__name__}: {e}', hist); return False
+    ctx.probe_ok(('reuse', name)); ctx.count('reuse-check')
+    return True
+
+
 def module_constants():
     """every module-level ndarray of the loaded modules `numqi.gate*` / `numqi.channel*` (shared stacks such as the Pauli matrices), and of the
     modules that define the public channel functions — found through `sys.modules` / `fn.__module__`, no private module is named"""
@@ -282,6 +346,43 @@ def classical_channel_ops(ctx, rng, add):
         ctx.count('classical-channel')
 
 
+def function_channel_ops(ctx, rng, add):
+    """channels GIVEN AS FUNCTIONS on Gaussian-integer data, exact: `hf_channel_to_choi_op(fn, din)` against the model's `choiOfMap` (op `hf2c`),
+    `hf_channel_to_kraus_op(fn, din)` end to end with a recording `eigh` (op `hf2k`); the function is a fresh-result / in-place / pass-through
+    wrapper of the identity, an integer unitary or a random integer Kraus channel; the Choi operator sent to the model is that of the channel"""
+    import numqi
+    ch = numqi.channel
+    for label, din, dout, phi, flavours in function_channels(rng, [1, 2, 3], integer=True):
+        m = din * dout
+        # Choi operator of the channel, from the map itself on fresh matrix units (exact integers)
+        G = np.zeros((m, m), dtype=np.complex128)
+        for i in range(din):
+            for j in range(din):
+                E = np.zeros((din, din)); E[i, j] = 1
+                out = phi(E)
+                for a in range(dout):
+                    for b in range(dout):
+                        G[i * dout + a, j * dout + b] = out[a, b]
+        n0 = 0
+        evl = sorted(int(x) ** 2 for x in rng.integers(1, 4, size=m)); evc = rg(rng, (m, m), 2, True)
+        for flav, fn in flavours:
+            r_c = guarded(lambda: gl(ch.hf_channel_to_choi_op(fn, din)))
+            if flav != 'fresh' and r_c != gl(G) and not r_c.startswith('error'):
+                # a wrong answer for a pass-through / in-place function goes through the finding channel with its concrete input
+                ctx.fail(FNCH_KEY, f'hf_channel_to_choi_op(<{flav} function of the {label} channel>, {din}) = {r_c[:80]} but the Choi operator of that channel is {gl(G)[:80]}',
+                         dict(op='hf_channel_to_choi_op', channel=label, function_kind=flav, dim_in=din, dim_out=dout, expected=gl(G), got=r_c))
+            else:
+                add(f'C12 hf2c {din} {dout} {gl(G)}', lambda r_c=r_c: r_c)
+            with EighSpy(fake=(evl, evc)) as spy:
+                r_k = guarded(lambda: ch.hf_channel_to_kraus_op(fn, din))
+            if isinstance(r_k, str):
+                add(f'C12 hf2k {din} {dout} {gl(G)} {";".join(map(str, evl))} {gl(evc)}', lambda r_k=r_k: r_k)
+            elif len(spy.calls) == 1:
+                ans = f'{gl(spy.calls[0][0])}|{r_k.shape[0]}|{gl(r_k)}' if r_k.shape[1:] == (dout, din) else f'shape{r_k.shape}'
+                add(f'C12 hf2k {din} {dout} {gl(G)} {";".join(map(str, evl))} {gl(evc)}', lambda ans=ans: ans)
+            ctx.count('function-channel-tie-' + flav)
+
+
 def purity_ops(ctx, rng, add):
     """`get_purity` on Gaussian-integer matrices (exact): complex128, int64 (real), torch"""
     import numqi, torch
@@ -370,7 +471,10 @@ def spectral_tie(ctx, rng):
         emit(f'C12 spec ent {bits(eps)} {fl(ps)}', lambda: U.get_von_neumann_entropy(P), lambda: U.get_von_neumann_entropy(torch.tensor(P)),
              lambda: U.get_von_neumann_entropy(P.astype(np.complex128)))
         emit(f'C12 spec fid {fl(p)} {fl(q)}', lambda: U.get_fidelity(P, Q), lambda: U.get_fidelity(torch.tensor(P), torch.tensor(Q)))
-        emit(f'C12 spec rel {bits(eps)} {fl(p)} {fl(q)}', lambda: U.get_relative_entropy(P, Q), lambda: U.get_relative_entropy(torch.tensor(P), torch.tensor(Q)))
+        pe = np.maximum(p, eps); trl = float(np.dot(pe, np.log(pe)))        # tr rho log rho as the default call computes it
+        emit(f'C12 spec rel {bits(eps)} {fl(p)} {fl(q)}', lambda: U.get_relative_entropy(P, Q), lambda: U.get_relative_entropy(torch.tensor(P), torch.tensor(Q)),
+             lambda: U.get_relative_entropy(P, Q, tr_rho_log_rho=trl), lambda: U.get_relative_entropy(torch.tensor(P), torch.tensor(Q), tr_rho_log_rho=trl),
+             lambda: U.get_relative_entropy(torch.tensor(P), torch.tensor(Q), _torch_logm='eigen'), lambda: U.get_relative_entropy(P, Q, trl, ('pade', 6, 8)))
         # trace distance of commuting states (eigvalsh of a diagonal matrix is exact; the order of summation differs)
         emit(f'C12 spec td {fl(p)} {fl(q)}', lambda: U.get_trace_distance(P, Q), lambda: U.get_trace_distance(Q.astype(np.complex128), P.astype(np.complex128)))
         # trace distance of general states: the eigenvalues of rho - sigma as returned by the real eigvalsh are passed as data; if the
@@ -536,6 +640,7 @@ def correspondence(ctx):
     eigh_composition_ops(ctx, rng, add)
     purity_ops(ctx, rng, add)
     classical_channel_ops(ctx, rng, add)
+    function_channel_ops(ctx, rng, add)
     check_module_constants(ctx, consts, 'the conversion / apply calls of the exact tie')
     for key, what in (('c2k-skipped', 'c2k (np.linalg.eigh not called exactly once by choi_op_to_kraus_op)'), ('hf2s-skipped', 'hf2s (inner super_op_to_kraus_op call not interceptable)')):
         if ctx.hist.get(key):
@@ -821,6 +926,9 @@ def probe(ctx):
     probe_renyi(ctx, np.random.default_rng(ctx.np_seed + 31))
     probe_values(ctx, np.random.default_rng(ctx.np_seed + 32))
     probe_classical(ctx, np.random.default_rng(ctx.np_seed + 33))
+    probe_function_channels(ctx, np.random.default_rng(ctx.np_seed + 34))
+    probe_optional_args(ctx, np.random.default_rng(ctx.np_seed + 35))
+    probe_reuse(ctx)
     ctx.extra['probe_worst'] = {k: float(v) for k, v in worst.items()}
     ctx.assumptions.append('probe tolerances: 1e-9 for equivalence of representations and for the inequalities on full-rank states; 1e-6 where a '
                            'square root of a rounding-level eigenvalue enters (fidelity with a rank-deficient input or output state: sqrt(2.2e-16*d) ~ 3e-8 per zero eigenvalue, up to 5 of them, doubled by the final squaring; worst observed 3e-8); '
@@ -944,6 +1052,180 @@ def probe_hardening(ctx, rng):
 
 
 RENYI_KEY = 'renyi-entropy-nan'
+FNCH_KEY = 'hf_channel_to_choi_op:probe-buffer-aliased'
+
+
+def function_flavours(phi, square):
+    """a linear map `phi` (returns a fresh array) wrapped as the kinds of python function a user may hand to hf_channel_to_*:
+    fresh result, the result written back into the argument (in place) and returned"""
+    out = [('fresh', phi)]
+    if square:
+        def inplace(r):
+            v = phi(r)
+            if np.iscomplexobj(v) and not np.iscomplexobj(r):
+                return v
+            r[...] = v
+            return r
+        out.append(('in-place', inplace))
+    return out
+
+
+def function_channels(rng, d_list, integer):
+    """(label, dim_in, dim_out, phi, [(flavour, function)]) — channels GIVEN AS FUNCTIONS: identity (incl. pass-through functions that return
+    the argument itself or a view of it), unitary, the built-in noise channels with the `if rate == 0: return rho` shortcut at rates 0 / 0.3 / 1,
+    random Kraus channels"""
+    import numqi
+    ch = numqi.channel
+    out = []
+    for d in d_list:
+        ident = lambda r: np.array(r, copy=True)
+        out.append((f'identity d={d}', d, d, ident, [('fresh', ident), ('returns-argument', lambda r: r), ('returns-view', lambda r, d=d: r.reshape(d, d)),
+                                                      ('returns-transposed-twice', lambda r: r.T.T), ('np.asarray', lambda r: np.asarray(r))]))
+        if integer:
+            perm = rng.permutation(d); ph = np.array([1, 1j, -1, -1j])[rng.integers(0, 4, size=d)]
+            Umat = np.zeros((d, d), dtype=np.complex128); Umat[np.arange(d), perm] = ph
+        else:
+            Umat = numqi.random.rand_haar_unitary(d, seed=int(rng.integers(1 << 30)))
+        uphi = lambda r, Umat=Umat: Umat @ r @ Umat.conj().T
+        out.append((f'unitary d={d}', d, d, uphi, function_flavours(uphi, True)))
+    if not integer:
+        for nm, mk in (('dephasing', ch.hf_dephasing_kraus_op), ('depolarizing', ch.hf_depolarizing_kraus_op), ('amplitude-damping', ch.hf_amplitude_damping_kraus_op)):
+            for rate in (0.0, 0.3, 1.0):
+                K = mk(rate)
+                phi = lambda r, K=K: ch.apply_kraus_op(K, r)
+
+                def shortcut(r, K=K, rate=rate):          # a hand-written noisy channel: nothing to do at rate 0
+                    if rate == 0:
+                        return r
+                    return ch.apply_kraus_op(K, r)
+                out.append((f'{nm} rate={rate}', 2, 2, phi, [('fresh', phi), ('rate-0-shortcut', shortcut)]))
+    for rep in range(2):
+        din = int(rng.integers(1, 4)); dout = int(rng.integers(1, 4)); n = int(rng.integers(max(1, -(-din // dout)), din * dout + 1))
+        K = rg(rng, (n, dout, din), 2, True) if integer else numqi.random.rand_kraus_op(n, din, dout, seed=int(rng.integers(1 << 30)))
+        phi = lambda r, K=K: ch.apply_kraus_op(K, r)
+        out.append((f'kraus {din}->{dout} ({n} terms)', din, dout, phi, function_flavours(phi, din == dout and not np.iscomplexobj(K))))
+    return out
+
+
+def probe_function_channels(ctx, rng):
+    """channels given as python FUNCTIONS to hf_channel_to_choi_op / hf_channel_to_kraus_op: the returned Choi operator / Kraus set must implement
+    the function (apply_choi_op / apply_kraus_op on random states = the function on a copy of the state), be trace preserving when the channel is,
+    and must not share memory with any array the function was handed"""
+    import numqi
+    ch = numqi.channel
+    for label, din, dout, phi, flavours in function_channels(rng, [1, 2, 3], integer=False):
+        for flav, fn in flavours:
+            info = dict(op='hf_channel_to_choi_op / hf_channel_to_kraus_op', channel=label, function_kind=flav, dim_in=din, dim_out=dout)
+            seen = []
+
+            def spy(r, fn=fn):
+                seen.append(r)
+                return fn(r)
+            try:
+                C4 = ch.hf_channel_to_choi_op(spy, din); C = np.asarray(C4).reshape(din * dout, din * dout)
+                alias_c = any(np.shares_memory(C4, x) for x in seen if isinstance(x, np.ndarray))
+                seen_k = []
+
+                def spy_k(r, fn=fn):
+                    seen_k.append(r)
+                    return fn(r)
+                K = ch.hf_channel_to_kraus_op(spy_k, din)
+                r2 = np.random.default_rng(7 + din)
+                rho = r2.normal(size=(din, din)) + 1j * r2.normal(size=(din, din)); rho = rho @ rho.conj().T; rho /= np.trace(rho).real
+                want = phi(rho.copy())
+                e_c = maxdiff(ch.apply_choi_op(C, rho), want)
+                e_k = maxdiff(ch.apply_kraus_op(K, rho), want) if K.shape[0] else float(np.abs(want).max())
+            except Exception as e:
+                ctx.fail('function-channel-raises', f'{type(e).__name__}: {e} ({label}, {flav})', info); continue
+            if e_c > 1e-12 or alias_c:
+                ctx.fail(FNCH_KEY, f'hf_channel_to_choi_op(<{flav} function of the {label} channel>, {din}) does not implement the function: '
+                         f'|apply_choi_op(C, rho) - f(rho)| = {e_c:.3e}, {int(np.count_nonzero(C))} non-zero entries of {C.size} '
+                         f'(result shares memory with a probe: {alias_c})', dict(info, choi=[[repr(complex(x)) for x in row] for row in C][:4]))
+            if e_k > 1e-9:
+                ctx.fail('hf_channel_to_kraus_op:function-channel', f'hf_channel_to_kraus_op(<{flav} function of the {label} channel>, {din}) returned {K.shape[0]} Kraus operators that do not '
+                         f'implement the function: |apply_kraus_op(K, rho) - f(rho)| = {e_k:.3e}', dict(info, kraus_shape=list(K.shape)))
+            if not (e_c > 1e-12 or alias_c or e_k > 1e-9):
+                ctx.probe_ok(('function-channel', label, flav)); ctx.count('function-channel-' + flav)
+
+
+def probe_optional_args(ctx, rng):
+    """every optional argument of the metric functions supplied explicitly must reproduce the default call: `tr_rho_log_rho` of
+    get_relative_entropy (= tr rho log rho = -S(rho), numpy and torch; this is how PureBosonicExt / the boundary solvers call it),
+    `_torch_logm` in {'eigen', ('pade',6,8), ('pade',4,6)} with and without requires_grad, for get_relative_entropy and get_von_neumann_entropy;
+    monotonicity under a channel evaluated through the optional-argument path"""
+    import numqi, torch
+    U = numqi.utils; ch = numqi.channel
+    for rep in range(8 if ctx.quick() else 60):
+        d = int(rng.integers(2, 5)); seed = int(rng.integers(1 << 30)); r2 = np.random.default_rng(seed)
+        kind = ['full', 'low', 'pure'][rep % 3]
+        rho, sig = rand_state(r2, d, kind), rand_state(r2, d, 'full')
+        info = dict(op='get_relative_entropy(rho, sigma, tr_rho_log_rho=-S(rho))', d=d, rho_kind=kind, state_seed=seed)
+        try:
+            trl = -float(U.get_von_neumann_entropy(rho))
+            base = float(U.get_relative_entropy(rho, sig)); rt, st = torch.tensor(rho), torch.tensor(sig)
+            vals = dict(numpy_supplied=float(U.get_relative_entropy(rho, sig, tr_rho_log_rho=trl)), numpy_positional=float(U.get_relative_entropy(rho, sig, trl)),
+                        torch_default=float(U.get_relative_entropy(rt, st)), torch_supplied=float(U.get_relative_entropy(rt, st, tr_rho_log_rho=trl)),
+                        torch_eigen=float(U.get_relative_entropy(rt, st, _torch_logm='eigen')))
+            sg = torch.tensor(sig, requires_grad=True)
+            pade = {k: float(U.get_relative_entropy(rt, sg, tr_rho_log_rho=trl, _torch_logm=v)) for k, v in (('pade68', ('pade', 6, 8)), ('pade46', ('pade', 4, 6)), ('eigen-grad', 'eigen'))}
+            ent = dict(default=float(U.get_von_neumann_entropy(rho)), torch_pade_nograd=float(U.get_von_neumann_entropy(rt, _torch_logm=('pade', 6, 8))),
+                       torch_eigen=float(U.get_von_neumann_entropy(rt, _torch_logm='eigen')))
+            rg_ = torch.tensor(sig, requires_grad=True)
+            ent['torch_pade_grad(sigma)'] = float(U.get_von_neumann_entropy(rg_, _torch_logm=('pade', 6, 8))); ent['sigma_default'] = float(U.get_von_neumann_entropy(sig))
+            # monotonicity through the optional-argument path
+            K = numqi.random.rand_kraus_op(int(r2.integers(1, 4)) + 1, d, d, seed=int(r2.integers(1 << 30)))
+            o0, o1 = ch.apply_kraus_op(K, rho), ch.apply_kraus_op(K, sig)
+            s_out = float(U.get_relative_entropy(o0, o1, tr_rho_log_rho=-float(U.get_von_neumann_entropy(o0)))) if np.linalg.eigvalsh(o1).min() > 1e-6 else None
+        except Exception as e:
+            ctx.fail('relative-entropy-optional-arg-raises', f'{type(e).__name__}: {e}', info); continue
+        tol = 1e-10 * max(1.0, abs(base))
+        bad = {k: v for k, v in vals.items() if abs(v - base) > tol}
+        bad.update({k: v for k, v in pade.items() if abs(v - base) > 1e-7 * max(1.0, abs(base))})
+        bad_e = {k: v for k, v in ent.items() if k not in ('default', 'sigma_default', 'torch_pade_grad(sigma)') and abs(v - ent['default']) > 1e-10}
+        if abs(ent['torch_pade_grad(sigma)'] - ent['sigma_default']) > 1e-7:
+            bad_e['torch_pade_grad(sigma)'] = ent['torch_pade_grad(sigma)']
+        if bad:
+            k0 = sorted(bad)[0]
+            ctx.fail('relative-entropy-optional-arg', f'get_relative_entropy with an optional argument supplied differs from the default call {base!r}: {bad} '
+                     f'(tr_rho_log_rho = -S(rho) = {trl!r}; first: {k0})', dict(info, default=base, with_optional=dict(vals, **pade), tr_rho_log_rho=trl))
+        elif bad_e:
+            ctx.fail('entropy-optional-arg', f'get_von_neumann_entropy with _torch_logm supplied differs from the default {ent["default"]!r}: {bad_e}', dict(info, values=ent))
+        elif s_out is not None and kind == 'full' and s_out > base + 1e-9 * max(1.0, abs(base)):
+            ctx.fail('contractivity:relative-entropy-optional-arg', f'relative entropy (tr_rho_log_rho supplied) increases under a channel: {base} -> {s_out}', info)
+        else:
+            ctx.probe_ok(('optional-args', d, kind, seed)); ctx.count('optional-args')
+
+
+def probe_reuse(ctx):
+    """input class "buffer reuse across calls" for every returning public function of numqi.channel (numpy, and torch where offered) and the
+    noise-channel constructors: two different inputs of the same size, see `reuse_check`"""
+    import numqi, torch
+    ch = numqi.channel
+    r = np.random.default_rng(12345)
+    for din, dout, n in ((1, 1, 1), (2, 2, 2), (2, 3, 3)):
+        KA, KB = (numqi.random.rand_kraus_op(n, din, dout, seed=s_) for s_ in (1, 2))
+        CA, CB = ch.kraus_op_to_choi_op(KA).copy(), ch.kraus_op_to_choi_op(KB).copy()
+        SA, SB = ch.kraus_op_to_super_op(KA).copy(), ch.kraus_op_to_super_op(KB).copy()
+        mk = lambda: (lambda a: a @ a.conj().T / np.trace(a @ a.conj().T).real)(r.normal(size=(din, din)) + 1j * r.normal(size=(din, din)))
+        rA, rB = mk(), mk()
+        tag = f'[{din}->{dout}]'
+        reuse_check(ctx, 'kraus_op_to_choi_op' + tag, ch.kraus_op_to_choi_op, (KA,), (KB,))
+        reuse_check(ctx, 'kraus_op_to_choi_op[torch]' + tag, ch.kraus_op_to_choi_op, (torch.tensor(KA),), (torch.tensor(KB),))
+        reuse_check(ctx, 'kraus_op_to_super_op' + tag, ch.kraus_op_to_super_op, (KA,), (KB,))
+        reuse_check(ctx, 'choi_op_to_kraus_op' + tag, lambda C: ch.choi_op_to_kraus_op(C, din), (CA,), (CB,))
+        reuse_check(ctx, 'super_op_to_kraus_op' + tag, ch.super_op_to_kraus_op, (SA,), (SB,))
+        reuse_check(ctx, 'choi_op_to_super_op' + tag, lambda C: ch.choi_op_to_super_op(C, din), (CA,), (CB,))
+        reuse_check(ctx, 'super_op_to_choi_op' + tag, ch.super_op_to_choi_op, (SA,), (SB,))
+        reuse_check(ctx, 'apply_kraus_op' + tag, ch.apply_kraus_op, (KA, rA), (KB, rB))
+        reuse_check(ctx, 'apply_choi_op' + tag, ch.apply_choi_op, (CA, rA), (CB, rB))
+        reuse_check(ctx, 'apply_choi_op[torch]' + tag, ch.apply_choi_op, (torch.tensor(CA), torch.tensor(rA)), (torch.tensor(CB), torch.tensor(rB)))
+        reuse_check(ctx, 'apply_super_op' + tag, ch.apply_super_op, (SA, rA), (SB, rB))
+        reuse_check(ctx, 'hf_channel_to_choi_op' + tag, lambda K: ch.hf_channel_to_choi_op(lambda x: ch.apply_kraus_op(K, x), din), (KA,), (KB,))
+        reuse_check(ctx, 'hf_channel_to_kraus_op' + tag, lambda K: ch.hf_channel_to_kraus_op(lambda x: ch.apply_kraus_op(K, x), din), (KA,), (KB,))
+        if din >= 2 and dout >= 2:
+            reuse_check(ctx, 'choi_op_to_bloch_map' + tag, lambda C: ch.choi_op_to_bloch_map(C.reshape(din, dout, din, dout)), (CA,), (CB,))
+    for nm, fn in (('hf_dephasing_kraus_op', ch.hf_dephasing_kraus_op), ('hf_depolarizing_kraus_op', ch.hf_depolarizing_kraus_op), ('hf_amplitude_damping_kraus_op', ch.hf_amplitude_damping_kraus_op)):
+        reuse_check(ctx, nm, fn, (0.3,), (0.7,), describe=dict(A='rate 0.3', B='rate 0.7'))
 
 
 def probe_classical(ctx, rng):
